@@ -470,10 +470,11 @@ theorem Realises.ids_length_le {s : Store} {tops : List Forest} (h : Realises s 
 
 /-- `mpt_list_clone(x)`: the sibling list from `x` on is copied with everything below it; the copy is a new
     top-level list that realises the relabelled source (same shape, names and values at every depth) -/
-theorem listClone_refines {s : Store} {x j : Nat} {l0 L : Forest} {rest : List Forest} {par : Option Nat}
+theorem listClone_refines_len {s : Store} {x j : Nat} {l0 L : Forest} {rest : List Forest} {par : Option Nat}
     (hR : Realises s (l0 :: rest)) (hat : SibsAt x l0 L j par) :
     ∃ s', s.listClone s.fuel (some x) = .ok (s', some s.nodes.length) ∧
-      Realises s' ((l0 :: rest) ++ [(relabel (L.drop j) s.nodes.length).1]) := by
+      Realises s' ((l0 :: rest) ++ [(relabel (L.drop j) s.nodes.length).1]) ∧
+      s'.nodes.length = (relabel (L.drop j) s.nodes.length).2 := by
   have hl0 := hR.real l0 (by simp)
   have hnd := hR.nodup
   simp only [List.flatMap_cons] at hnd
@@ -515,7 +516,7 @@ theorem listClone_refines {s : Store} {x j : Nat} {l0 L : Forest} {rest : List F
       have := congrArg List.length hd
       simp at this; omega
     | cons t ts => cases t; simp [relabel]
-  refine ⟨s', ?_, ?_⟩
+  refine ⟨s', ?_, ?_, len'⟩
   · simp only [Store.listClone]
     rw [← hhead, e, hcopyhead]
   · refine hR.add_fresh fr' (fun i hi => frm' i hi (by simp)) hcopyne acc'.real acc'.nodup acc'.fresh ?_
@@ -524,12 +525,20 @@ theorem listClone_refines {s : Store} {x j : Nat} {l0 L : Forest} {rest : List F
     rw [len', (ids_relabel _ _).2] at h2
     exact List.mem_range'_1.2 ⟨h1, h2⟩
 
+theorem listClone_refines {s : Store} {x j : Nat} {l0 L : Forest} {rest : List Forest} {par : Option Nat}
+    (hR : Realises s (l0 :: rest)) (hat : SibsAt x l0 L j par) :
+    ∃ s', s.listClone s.fuel (some x) = .ok (s', some s.nodes.length) ∧
+      Realises s' ((l0 :: rest) ++ [(relabel (L.drop j) s.nodes.length).1]) := by
+  obtain ⟨s', h1, h2, _⟩ := listClone_refines_len hR hat
+  exact ⟨s', h1, h2⟩
+
 /-- `mpt_tree_clone(x)`: `x` is copied with everything below it; the copy is a new detached root that
     realises the relabelled source tree -/
-theorem treeClone_refines {s : Store} {x : Nat} {l0 : Forest} {rest : List Forest} {n : Name} {v : Val} {cs : Forest}
+theorem treeClone_refines_len {s : Store} {x : Nat} {l0 : Forest} {rest : List Forest} {n : Name} {v : Val} {cs : Forest}
     (hR : Realises s (l0 :: rest)) (hfx : find? x l0 = some (.node x n v cs)) :
     ∃ s', s.treeClone x = .ok (s', s.nodes.length) ∧
-      Realises s' ((l0 :: rest) ++ [(relabel [.node x n v cs] s.nodes.length).1]) := by
+      Realises s' ((l0 :: rest) ++ [(relabel [.node x n v cs] s.nodes.length).1]) ∧
+      s'.nodes.length = (relabel [.node x n v cs] s.nodes.length).2 := by
   have hl0 := hR.real l0 (by simp)
   have hnd := hR.nodup
   simp only [List.flatMap_cons] at hnd
@@ -572,7 +581,7 @@ theorem treeClone_refines {s : Store} {x : Nat} {l0 : Forest} {rest : List Fores
     simp [relabel]
   have hrel2 : (relabel [Tree.node x n v cs] s.nodes.length).2 = (relabel cs (s.nodes.length + 1)).2 := by
     simp [relabel]
-  refine ⟨s2, ?_, ?_⟩
+  refine ⟨s2, ?_, ?_, by rw [hrel2, len2, lenk]⟩
   · simp only [Store.treeClone, Store.get_ok ⟨hxrec, rfl⟩, Res.bind_ok, hclone, Store.listClone]
     rw [ek]
     simp only [Res.bind_ok, e2]
@@ -600,5 +609,12 @@ theorem treeClone_refines {s : Store} {x : Nat} {l0 : Forest} {rest : List Fores
         rw [(ids_relabel _ _).1]
         exact List.mem_range'_1.2 ⟨by omega, h2⟩
 
+
+theorem treeClone_refines {s : Store} {x : Nat} {l0 : Forest} {rest : List Forest} {n : Name} {v : Val} {cs : Forest}
+    (hR : Realises s (l0 :: rest)) (hfx : find? x l0 = some (.node x n v cs)) :
+    ∃ s', s.treeClone x = .ok (s', s.nodes.length) ∧
+      Realises s' ((l0 :: rest) ++ [(relabel [.node x n v cs] s.nodes.length).1]) := by
+  obtain ⟨s', h1, h2, _⟩ := treeClone_refines_len hR hfx
+  exact ⟨s', h1, h2⟩
 
 end Mpt.Nodes
